@@ -16,6 +16,21 @@ thread_local! {
     static REPORTED: std::cell::RefCell<std::collections::HashSet<String>> = Default::default();
 }
 
+/// Small parameter set: the quick tier, and the failing-input search (which reruns the same
+/// operand classes with more random operands, see `extra`).
+pub fn small(ctx: &Ctx) -> bool {
+    ctx.quick() || ctx.search()
+}
+
+/// Multiplier for the number of random operands / pairs.
+pub fn extra(ctx: &Ctx) -> usize {
+    if ctx.search() {
+        3
+    } else {
+        1
+    }
+}
+
 /// `oracle_fail`, once per key (defect classes have one stable key; the first witness is kept).
 pub fn fail_once(ctx: &mut Ctx, key: &str, what: &str, detail: serde_json::Value) {
     let fresh = REPORTED.with(|r| r.borrow_mut().insert(key.to_string()));
